@@ -24,6 +24,20 @@ S x A; states / actions are symbolic in-range integers.
                  fold invariant  n*Q == sum of the observed returns.
   Dyna-Q model:  T[s,a,k] == cnt[s,a,k] / sum_k' cnt[s,a,k'],
                  R[s,a,k] == mean(observed rewards of (s,a,k)).
+
+Call sites (`*.train` tasks): ONE arbitrary iteration of the real training loop
+body is executed from its first statement up to the update call (loop_prefix)
+with arbitrary loop-carried locals, a ScriptedEnv answering env.step with
+arbitrary values and the behaviour policy replaced by its contract.
+
+Obligations that FAIL on the unchanged tree (genuine defects, replayed natively
+by replay/drivers/c14_tabular.py):
+  C14._dql_update.post.entry, C14.double_q.train.callsite.entry
+      _dql_update takes the greedy action of the updated table at `observation`
+      instead of `next_observation`;
+  C14.model_update.inv.frequencies
+      dynaq.model_update rewrites only T[s,a,s']; the frequencies of the other
+      successors of (s,a) keep the old denominator (row no longer sums to 1).
 """
 import ast
 
@@ -31,7 +45,7 @@ import z3
 
 from pyvc import core as C
 from pyvc import tensor as T
-from pyvc.core import INT, KEY, REAL, Sym, band, bnot, bor, implies
+from pyvc.core import INT, KEY, REAL, Sym, band, bnot, bor
 from pyvc.interp import Frame
 from pyvc.lib import ext_tabular as X
 from pyvc.runner import Task
@@ -684,22 +698,26 @@ TASKS = [
 TRUSTED = [
     "reals for float32 table entries, rewards, gamma, learning rate (no rounding)",
     "jax .at[i,j].add/.set = functional point update; jnp.argmax = first maximiser; jax.jit is semantics preserving",
-    "jax.lax.fori_loop(lo, hi, f, x) = fold of f over range(lo, hi) (induction principle used for monte_carlo.update)",
+    "jax.lax.fori_loop(lo, hi, f, x) = fold of f over range(lo, hi) (induction principle used for monte_carlo.update: base + step)",
     "python nested lists as total functions of in-range indices; list[float] abstracted by (len, sum); np.mean(l) = sum(l)/len(l)",
-    "finite-sum lemmas: sum after a point increment = sum + 1; a sum of naturals dominates each summand",
+    "finite-sum lemmas (pyvc/lib/ext_tabular.sum_point_update_lemmas): sum after a point increment = sum + 1; a sum of naturals dominates each summand",
+    "jax.random.randint(key, (n,), 0, m) returns n integers in [0, m); jax.random.split yields keys (uninterpreted)",
 ]
 ASSUMPTIONS = [
     "states / actions / successor states are in-range indices of the tables (JAX clamps or drops out-of-range indices silently)",
     "tables have shape (S, A) with S, A >= 1; the Dyna-Q model and counter have shape (S, A, S)",
-    "Monte-Carlo visit counts are >= 0",
+    "Monte-Carlo visit counts are >= 0 and, for the running-mean invariant, n*Q == sum of the returns observed so far (n == 0: none)",
     "Dyna-Q counter is well-formed before the step: counts are naturals and one reward is stored per counted transition",
-    "SARSA call site: epsilon_greedy_policy replaced by its contract (returns some in-range action)",
+    "Dyna-Q model satisfies the model invariant on the visited row before the step (inductive hypothesis)",
+    "call sites: epsilon_greedy_policy is replaced by its contract (returns SOME in-range action); the environment answers env.step with arbitrary values",
+    "Dyna-Q successor replayed from the model = the most likely successor argmax_k T[s,a,k] (first maximiser), reward = R[s,a,that successor]",
 ]
 NOT_COVERED = [
-    "the environment interaction / episode bookkeeping of the train_* loops (only the statements between env.step and the update call are executed)",
-    "train_monte_carlo's slicing of the episode arrays handed to update()",
-    "Dyna-Q bootstraps from the successor even when the transition terminated (q_learning_update has no termination flag; the property does not demand one for Dyna-Q)",
-    "Dyna-Q call site with more than one planning step / longer buffers (the per-step law is proved for arbitrary buffers in dynaq.planning1/2)",
+    "episode bookkeeping after the update call in the train_* loops (logger, env.reset, observation hand-over) and the loops' iteration structure: one arbitrary iteration is executed up to the update call",
+    "Monte-Carlo: the fold is proved by induction (base + step of the real _update_body) and end-to-end only for episode lengths 1 and 2",
+    "Dyna-Q bootstraps from the successor even when the transition terminated (q_learning_update has no termination flag; the property statement does not demand one for Dyna-Q)",
+    "Dyna-Q call site with more than one planning step / buffers longer than 3 (the per-step law is proved for arbitrary buffers in dynaq.planning1/2); the deque's maxlen eviction",
+    "float32 rounding of the running mean / frequencies",
 ]
 REPLAY = {
     "_dql_update.": "c14_tabular", "double_q.train.": "c14_tabular", "model_update.": "c14_tabular",
